@@ -77,7 +77,7 @@ package fox
 //@ -- satisfy the same postcondition, stated once
 //@ func (*recorder).ReadFrom props C14 partial
 //@   requires r != nil && r.ResponseWriter != nil && recINV(r) && !r.hijacked
-//@   modifies r.size, wBody[r.ResponseWriter], wFinal[r.ResponseWriter], wFirst[r.ResponseWriter]
+//@   modifies r.size, wBody[r.ResponseWriter], wFinal[r.ResponseWriter], wFirst[r.ResponseWriter], released
 //@   ensures inv: recINV(r)
 //@   ensures bytes: n >= 0 && wBody[r.ResponseWriter] == old(wBody[r.ResponseWriter]) + n
 
